@@ -442,6 +442,9 @@ pub fn triggers(src: &str, root: &SyntaxNode) -> Vec<&'static str> {
             // R3 (float form): a float written with a trailing dot before a field access on the next
             // line (`2.<nl>.at(0)`) is joined to `2..at(0)`
             K::FieldAccess if f.node.children().next().is_some_and(|t| t.kind() == K::Float && t.text().ends_with('.')) => add("R3"),
+            // R63: parentheses around a string used as dictionary key are removed; the key then is a
+            // literal key and two equal ones are a syntax error (`(("k"): 1, ("k"): 1)`)
+            K::Keyed if f.node.children().next().is_some_and(|c| c.kind() == K::Parenthesized && syn::any_node(c, &mut |x| x.kind() == K::Str)) => add("R63"),
             // R12: a comment directly inside a heading (between marker and body)
             K::Heading
                 if f.node.children().any(|c| {
@@ -484,10 +487,10 @@ pub fn triggers(src: &str, root: &SyntaxNode) -> Vec<&'static str> {
                     }
                 }
             }
-            // R44: a line comment directly inside a math delimiter pair gains a blank per pass
+            // R44: a comment directly inside a math delimiter pair gains / loses blanks
             K::MathDelimited
                 if f.node.children().any(|c| {
-                    c.kind() == K::LineComment || (c.kind() == K::Math && c.children().any(|x| x.kind() == K::LineComment))
+                    syn::is_comment(c.kind()) || (c.kind() == K::Math && c.children().any(|x| syn::is_comment(x.kind())))
                 }) =>
             {
                 add("R44")
